@@ -10,7 +10,7 @@ CONSTANTS RoleSet, InitStates, DtlsSet, KxSet
 E == "e0"
 
 RecSpace ==
-    { r \in [it : RecTypes, msg : HsMsgs, sealed : BOOLEAN, auth : BOOLEAN, gen : BOOLEAN, free : BOOLEAN, frag : BOOLEAN,
+    { r \in [it : RecTypes, msg : HsMsgs, sealed : BOOLEAN, auth : BOOLEAN, gen : BOOLEAN, free : BOOLEAN, frag : BOOLEAN, len : {1},
              alvl : {1, 2}, adesc : {0, 10}] :
         /\ (r.auth => r.sealed)
         /\ (r.it # "hs" => r.msg = "FINISHED")            \* msg irrelevant unless handshake
@@ -23,13 +23,15 @@ RecSpace ==
 
 CfgSpace(role, dtls) ==
     { c \in [kx : KxSet, resumed : BOOLEAN, cauth : BOOLEAN, tick : BOOLEAN, psk13 : BOOLEAN,
-             early : BOOLEAN, fam : {"L", "T13"}, dtls : {dtls}, limbo : BOOLEAN, retry : BOOLEAN] :
+             early : BOOLEAN, fam : {"L", "T13"}, dtls : {dtls}, med : {0, 2}, eskip : BOOLEAN, limbo : BOOLEAN, retry : BOOLEAN] :
         /\ (role = "C" => ~c.cauth)                       \* a client learns of client-auth from CertificateRequest
         /\ (c.fam = "T13" => c.kx = "tls13" /\ ~c.resumed /\ ~c.tick /\ ~dtls)
         /\ (c.fam = "L" => c.kx # "tls13" /\ ~c.psk13 /\ ~c.early)
         /\ (c.early => c.psk13 /\ role = "S")
         /\ (c.retry => (c.fam = "T13" \/ (dtls /\ role = "S")))
         /\ (c.tick => role = "C")
+        /\ (c.eskip => role = "S" /\ c.fam = "T13" /\ ~c.early)
+        /\ (c.med > 0 => c.eskip)
         /\ (c.limbo => role = "C" /\ c.fam = "L" /\ ~c.resumed /\ ~c.tick) }
 
 MCInit ==
@@ -51,7 +53,7 @@ MCRecv ==
                 /\ sess' = [sess EXCEPT ![E] = Recv(s, r, c, ok).next]
         ELSE sess' = [sess EXCEPT ![E] = RecvDead(s).next]
 
-MCSend == sess' = [sess EXCEPT ![E] = AppSend(sess[E])]
+MCSend == \E ce \in BOOLEAN, se \in BOOLEAN : sess' = [sess EXCEPT ![E] = AppSend(sess[E], ce, se)]
 MCClose == sess' = [sess EXCEPT ![E] = Close(sess[E])]
 
 MCNext == MCRecv \/ MCSend \/ MCClose
